@@ -129,6 +129,79 @@ static URI_INLINE UriBool URI_FUNC(EqualsAuthority)(const URI_TYPE(Uri) * first,
 
 
 
+/* With equal schemes: is there any reference without scheme that resolves
+ * against the base to the source?  Resolution makes such a reference inherit
+ * the authority of the base, and a rootless or empty path can only come out
+ * of merging with a rootless or empty base path. */
+static URI_INLINE UriBool URI_FUNC(CanDropScheme)(const URI_TYPE(Uri) * source,
+		const URI_TYPE(Uri) * base, UriBool domainRootMode) {
+	if (URI_FUNC(IsHostSet)(source)) {
+		return URI_TRUE; /* "//authority/path" always works */
+	}
+	if (URI_FUNC(IsHostSet)(base)) {
+		return URI_FALSE; /* cannot get rid of the base's authority */
+	}
+	if (source->absolutePath) {
+		return URI_TRUE; /* "/path" always works */
+	}
+
+	/* Source path is rootless or empty */
+	if (base->absolutePath || (domainRootMode == URI_TRUE)) {
+		return URI_FALSE;
+	}
+	return URI_TRUE;
+}
+
+
+
+/* Does the path have "." or ".." among its directories, i.e. anywhere but
+ * in the last segment (which resolution replaces)?  If so, *depth is the
+ * number of directories left after dot segment removal. */
+static URI_INLINE UriBool URI_FUNC(HasDotDirectories)(const URI_TYPE(Uri) * uri,
+		int * depth) {
+	const URI_TYPE(PathSegment) * walker = uri->pathHead;
+	UriBool res = URI_FALSE;
+	*depth = 0;
+	while ((walker != NULL) && (walker->next != NULL)) {
+		const int len = (int)(walker->text.afterLast - walker->text.first);
+		if ((len == 1) && (walker->text.first[0] == _UT('.'))) {
+			res = URI_TRUE;
+		} else if ((len == 2) && (walker->text.first[0] == _UT('.'))
+				&& (walker->text.first[1] == _UT('.'))) {
+			res = URI_TRUE;
+			if (*depth > 0) {
+				(*depth)--;
+			}
+		} else {
+			(*depth)++;
+		}
+		walker = walker->next;
+	}
+	return res;
+}
+
+
+
+/* Same path (same kind, same segments)? */
+static URI_INLINE UriBool URI_FUNC(EqualsPath)(const URI_TYPE(Uri) * first,
+		const URI_TYPE(Uri) * second) {
+	const URI_TYPE(PathSegment) * a = first->pathHead;
+	const URI_TYPE(PathSegment) * b = second->pathHead;
+	if (first->absolutePath != second->absolutePath) {
+		return URI_FALSE;
+	}
+	while ((a != NULL) && (b != NULL)) {
+		if (URI_FUNC(CompareRange)(&a->text, &b->text)) {
+			return URI_FALSE;
+		}
+		a = a->next;
+		b = b->next;
+	}
+	return ((a == NULL) && (b == NULL)) ? URI_TRUE : URI_FALSE;
+}
+
+
+
 static int URI_FUNC(RemoveBaseUriImpl)(URI_TYPE(Uri) * dest,
 		const URI_TYPE(Uri) * absSource,
 		const URI_TYPE(Uri) * absBase,
@@ -153,7 +226,9 @@ static int URI_FUNC(RemoveBaseUriImpl)(URI_TYPE(Uri) * dest,
 	}
 
 	/* [01/50]	if (A.scheme != Base.scheme) then */
-				if (URI_FUNC(CompareRange)(&absSource->scheme, &absBase->scheme)) {
+				/* NOTE: .. or no reference without a scheme could do */
+				if (URI_FUNC(CompareRange)(&absSource->scheme, &absBase->scheme)
+						|| !URI_FUNC(CanDropScheme)(absSource, absBase, domainRootMode)) {
 	/* [02/50]	   T.scheme    = A.scheme; */
 					dest->scheme = absSource->scheme;
 	/* [03/50]	   T.authority = A.authority; */
@@ -181,7 +256,17 @@ static int URI_FUNC(RemoveBaseUriImpl)(URI_TYPE(Uri) * dest,
 	/* [10/50]	   else */
 					} else {
 	/* [11/50]	      if domainRootMode then */
-						if (domainRootMode == URI_TRUE) {
+						/* NOTE: An absolute path is also the only way to get from
+						 *       a rootless base path to an absolute source path,
+						 *       and to a source whose path is just "/"
+						 *       (unless the empty reference will do). */
+						if ((domainRootMode == URI_TRUE)
+								|| (absSource->absolutePath && !absBase->absolutePath)
+								|| ((absSource->pathHead == NULL)
+									&& (absSource->absolutePath || URI_FUNC(IsHostSet)(absSource))
+									&& ((absBase->pathHead != NULL)
+										|| ((absBase->query.first != NULL)
+											&& (absSource->query.first == NULL))))) {
 	/* [12/50]	         undef(T.authority); */
 							/* NOOP */
 	/* [13/50]	         if (first(A.path) == "") then */
@@ -207,15 +292,42 @@ static int URI_FUNC(RemoveBaseUriImpl)(URI_TYPE(Uri) * dest,
 							const URI_TYPE(PathSegment) * baseSeg = absBase->pathHead;
 	/* [19/50]	         bool pathNaked = true; */
 							UriBool pathNaked = URI_TRUE;
+							int baseDepth = 0;
+							UriBool emptyWillDo = URI_FALSE;
 	/* [20/50]	         undef(last(Base.path)); */
 							/* NOOP */
 	/* [21/50]	         T.path = ""; */
 							dest->absolutePath = URI_FALSE;
 	/* [22/50]	         while (first(A.path) == first(Base.path)) do */
+							/* NOTE: Only directories can be shared, and the last
+							 *       segment of a path is not one: the last segment
+							 *       of the base is replaced during resolution, and
+							 *       the last segment of the source must be named by
+							 *       the reference.  The one exception is the empty
+							 *       reference for identical paths, and that one
+							 *       would inherit a query from the base. */
+							if (URI_FUNC(EqualsPath)(absSource, absBase)
+									&& ((absSource->query.first != NULL)
+										|| (absBase->query.first == NULL))) {
+								sourceSeg = NULL;
+								baseSeg = NULL;
+								emptyWillDo = URI_TRUE;
+							} else if (URI_FUNC(HasDotDirectories)(absBase, &baseDepth)) {
+								/* Directories of the base cannot be matched against
+								 * those of the source one by one: share nothing,
+								 * climb out of what dot removal leaves of them */
+								baseSeg = NULL;
+								for (; baseDepth > 0; baseDepth--) {
+									if (!URI_FUNC(AppendSegment)(dest, URI_FUNC(ConstParent),
+											URI_FUNC(ConstParent) + 2, memory)) {
+										return URI_ERROR_MALLOC;
+									}
+									pathNaked = URI_FALSE;
+								}
+							}
 							while ((sourceSeg != NULL) && (baseSeg != NULL)
-									&& !URI_FUNC(CompareRange)(&sourceSeg->text, &baseSeg->text)
-									&& !((sourceSeg->text.first == sourceSeg->text.afterLast)
-										&& ((sourceSeg->next == NULL) != (baseSeg->next == NULL)))) {
+									&& (sourceSeg->next != NULL) && (baseSeg->next != NULL)
+									&& !URI_FUNC(CompareRange)(&sourceSeg->text, &baseSeg->text)) {
 	/* [23/50]	            A.path++; */
 								sourceSeg = sourceSeg->next;
 	/* [24/50]	            Base.path++; */
@@ -282,6 +394,15 @@ static int URI_FUNC(RemoveBaseUriImpl)(URI_TYPE(Uri) * dest,
 	/* [44/50]	            endif; */
 								/* NOOP */
 	/* [45/50]	         endwhile; */
+							}
+							/* NOTE: The empty reference means "same path as the base";
+							 *       if that is not what we are after (the source
+							 *       path is empty, the base path is not), say "." */
+							if ((dest->pathHead == NULL) && (emptyWillDo == URI_FALSE)) {
+								if (!URI_FUNC(AppendSegment)(dest, URI_FUNC(ConstPwd),
+										URI_FUNC(ConstPwd) + 1, memory)) {
+									return URI_ERROR_MALLOC;
+								}
 							}
 	/* [46/50]	      endif; */
 						}
